@@ -618,7 +618,6 @@ func (e *Engine) registerDomain() {
 			unm("jws.Verify key-set suboptions %q", ko.subs)
 		}
 		b := c.args[0].(BytesV)
-		c.st.events = append(c.st.events, "jws.Verify")
 		var outs []Outcome
 		for _, m := range c.e.lookupToken(c.st, b.s) {
 			var valid *Term
